@@ -7,10 +7,12 @@ mod manicheck;
 mod manifest;
 mod shim;
 mod tamper;
+mod threads;
+mod wgl;
 
 fn main() {
     vcore::main_with(
-        vec![checks::c01(), checks::c02(), checks::c03(), checks::c04(), checks::c05(), checks::c07(), checks::c08(), manicheck::check(), checks::c20()],
+        vec![checks::c01(), checks::c02(), checks::c03(), checks::c04(), checks::c05(), checks::c06(), checks::c07(), checks::c08(), manicheck::check(), checks::c20()],
         &[
             ("child-run", crash::child_run),
             ("child-recover", crash::child_recover),
